@@ -962,7 +962,7 @@ class HistogramBase(abc.ABC):
                 self.errors2 = self.errors2 + other.errors2
                 self._missed += other._missed
             elif self.is_adaptive():
-                if other.missed > 0:
+                if other.missed > 0 or self.missed > 0:
                     raise ValueError("Cannot adapt histogram with missed values.")
 
                 other = other.copy()
